@@ -242,10 +242,11 @@ def check_class_header_arms(fx, rep, rule, impl):
             rep.check(rule, "%s/class-arm/%s/registration" % (rule, impl), ok_ins, loc=F.short_file(rl.body["sp"]),
                       found="%s" % S.tstr(e), expected="insert(classes, previous.%s, previous) - plain insert: the last class line with a name wins" % keyf)
         # new class in progress is built from this record only (nothing carried over)
-        ok_new = len(asg) == 1 and asg[0][2][0] == "adt"
+        # (`mem::take(&mut current)` leaves a default value that the final assignment of the arm overwrites)
+        ok_new = len(asg) >= 1 and asg[-1][2][0] == "adt" and all(a_[2][0] == "default" for a_ in asg[:-1])
         carried = []
         if ok_new:
-            new = asg[0][2]
+            new = asg[-1][2]
 
             def mentions_old(t):
                 hit = []
@@ -271,7 +272,7 @@ def check_class_header_arms(fx, rep, rule, impl):
             want_names = False
         rep.check(rule, "%s/class-arm/%s/fresh-class" % (rule, impl), bool(ok_new and want_names and not carried),
                   loc=F.short_file(rl.body["sp"]),
-                  found=(S.tstr(asg[0][2])[:600] if asg else "no assignment of the class in progress") + ((" carried over: %s" % carried) if carried else ""),
+                  found=(S.tstr(asg[-1][2])[:600] if asg else "no assignment of the class in progress") + ((" carried over: %s" % carried) if carried else ""),
                   expected="class in progress := fresh struct from this Class record (names wired, file name reset, empty member maps, zero counters); nothing leaks from the previous block")
         # per-class dedupe reset: either clear(set) here or the set is a field of the replaced struct
         if uniq is not None:
